@@ -228,3 +228,29 @@ def leading_byte_keys():
                 if Pt[0][1 if c == "c1" else 0] >= B:
                     _lead["signature x.%s leading byte 0x1a (%s, message abc)" % (c, suite)] = k
     return _lead
+
+
+def prelude(suite, pk, hashed_msg, dst, sig=None):
+    """Unrelated-looking public calls on related inputs, made before the calls under test: the same
+    message / tag hashed to the other group and under another hash, the key bytes in other byte-like
+    types, an off-curve triple sharing x with the key, the negated signature.  Whatever they return
+    or raise is ignored - they only form the call history."""
+    import hashlib
+
+    HC = importlib.import_module("py_ecc.bls.hash_to_curve")
+    G = importlib.import_module("py_ecc.bls.g2_primitives")
+    opt = importlib.import_module("py_ecc.optimized_bls12_381")
+    C = suite_cls(suite)
+    call(HC.hash_to_G1, hashed_msg, dst, hashlib.sha256)
+    call(HC.hash_to_G2, hashed_msg, dst, hashlib.sha512)
+    for wrap in (memoryview, bytearray):
+        call(C.KeyValidate, wrap(pk))
+    o = call(G.pubkey_to_G1, pk)
+    if o[0] == "ok":
+        try:
+            x, y = opt.normalize(o[1])
+            call(G.G1_to_pubkey, (x, y + 1, opt.FQ(1)))
+        except Exception:  # noqa: BLE001
+            pass
+    if sig is not None and len(sig) == 96:
+        call(G.signature_to_G2, bytes([sig[0] ^ 0x20]) + sig[1:])
